@@ -1,5 +1,6 @@
 import Casket.Model.FileServe
 import Casket.Spec.FileServe
+import Casket.Spec.Cond
 import Casket.Generated.FileServe
 import Driver.Proto
 /-
@@ -17,6 +18,11 @@ Streams of C02.
      acceptenc   hex, Accept-Encoding value ("" = header absent)
      listfmt     j | h : the listing is requested as JSON or as the default HTML page (same names)
      out         S<code> | R<code> TAB hexloc | F TAB enc TAB ino | L TAB hexnames | A TAB name=ino,… | H<code> TAB enc
+  c02.cond  (the nine fields of c02.serve)  cond
+     cond   hex of  inm=<*|s<ino>|w<ino>|g,…>;ims=<seconds|g>;range=<a>-<b>|<a>-|-<n>|g;x=<header outside the model>
+     out    as c02.serve, or  C304 f | C200/CH200 enc f d | C206/CH206 enc f d a-b | C416 f|- | X f d
+            (f: inode named by ETag/Content-Length/Content-Range/body, d: inode named by Last-Modified)
+  c02.archerr  kind  type     kind none|symlink|dirlink|socket|procfs in the archived directory; out = alive clean | alive <defect> | CRASH
   c02.clean  hexpath        out = hex of path.Clean(path) TAB hex of path.Clean("/"+path)
   c02.match  hexpath hexbase    out = 1|0   (httpserver.Path.Matches)
   c02.escape hexpath        out = hex of (&url.URL{Path: p}).EscapedPath()
@@ -159,7 +165,97 @@ def escapeModel : List String → String
     | none => "bad-case"
   | _ => "bad-case"
 
+/-! ### c02.cond -/
+open Casket.Cond in
+def parseInm (v : Bytes) : List InmItem :=
+  (splitOn 44 v).filterMap fun it =>
+    match it with
+    | [42] => some .star
+    | 115 :: ds => (parseNatBytes ds).map InmItem.strong
+    | 119 :: ds => (parseNatBytes ds).map InmItem.weak
+    | [103] => some .garbage
+    | _ => none
+
+open Casket.Cond in
+def parseRangeSpec (v : Bytes) : Option RangeSpec :=
+  if v = [103] then some .garbage
+  else
+    let c := cut 45 v
+    if !c.2.2 then none
+    else match c.1, c.2.1 with
+      | [], e => (parseNatBytes e).map RangeSpec.suffix
+      | a, [] => (parseNatBytes a).map RangeSpec.fromOn
+      | a, e => do pure (RangeSpec.fromTo (← parseNatBytes a) (← parseNatBytes e))
+
+open Casket.Cond in
+def parseCond (txt : Bytes) : Cond :=
+  (splitOn 59 txt).foldl (fun (c : Cond) part =>
+    let kv := cut 61 part
+    if kv.1 = b! "inm" then { c with inm := parseInm kv.2.1 }
+    else if kv.1 = b! "ims" then { c with ims := some (parseNatBytes kv.2.1) }
+    else if kv.1 = b! "range" then { c with range := parseRangeSpec kv.2.1 }
+    else if kv.1 = b! "x" then { c with explored := true }
+    else c) { inm := [], ims := none, range := none, explored := false }
+
+open Casket.Cond in
+def renderCond (method : Bytes) : CondResp → String
+  | .plain r => render method r
+  | .notModified f => s!"C304\t{f}"
+  | .full f enc d => (if method = mHEAD then "CH200" else "C200") ++ s!"\t{encStr enc}\t{f}\t{d}"
+  | .part f enc d a b => (if method = mHEAD then "CH206" else "C206") ++ s!"\t{encStr enc}\t{f}\t{d}\t{a}-{b}"
+  | .unsatisfiable (some f) => s!"C416\t{f}"
+  | .unsatisfiable none => "C416\t-"
+  | .explored f d => s!"X\t{f}\t{d}"
+
+def condModel (f : List String) : String :=
+  match f with
+  | [a, b, c, d, e, g, m, t, ae, condH] =>
+    match parseCase [a, b, c, d, e, g, m, t, ae], Driver.unhex condH with
+    | some cs, some ct => renderCond cs.method (Casket.Cond.serveCond cs.fs cs.site cs.method cs.target cs.ae (parseCond ct))
+    | _, _ => "bad-case"
+  | _ => "bad-case"
+
+open Casket.Cond in
+def parseCondObs (out : String) : Option CondResp :=
+  match out.splitOn "\t" with
+  | ["C304", f] => f.toNat?.map CondResp.notModified
+  | ["C416", "-"] => some (.unsatisfiable none)
+  | ["C416", f] => f.toNat?.map (fun x => CondResp.unsatisfiable (some x))
+  | ["X", f, d] => do pure (.explored (← f.toNat?) (← d.toNat?))
+  | ["X", f, d, _] => do pure (.explored (← f.toNat?) (← d.toNat?))   -- metadata seen in an error answer
+  | [k, enc, f, d] =>
+    if k = "C200" ∨ k = "CH200" then do
+      pure (.full (← f.toNat?) (if enc = "-" then none else some enc.toUTF8.toList) (← d.toNat?))
+    else (parseObs out).map CondResp.plain
+  | [k, enc, f, d, ab] =>
+    if k = "C206" ∨ k = "CH206" then
+      match ab.splitOn "-" with
+      | [a, b] => do pure (.part (← f.toNat?) (if enc = "-" then none else some enc.toUTF8.toList) (← d.toNat?) (← a.toNat?) (← b.toNat?))
+      | _ => none
+    else none
+  | _ => (parseObs out).map CondResp.plain
+
+def condJudge (f : List String) (out : String) : String :=
+  match f with
+  | [a, b, c, d, e, g, m, t, ae, _] =>
+    match parseCase [a, b, c, d, e, g, m, t, ae] with
+    | none => "bad:unparsable:case"
+    | some cs =>
+      match parseCondObs out with
+      | none => "bad:unparsable:" ++ out
+      | some obs => Casket.CondSpec.verdict cs.fs cs.site cs.target cs.ae obs
+  | _ => "bad:unparsable:case"
+
+/-- c02.archerr (explored, not modelled): the archive error paths must leave the server alive
+and the client with one well-formed response. -/
+def archErrJudge (_ : List String) (out : String) : String :=
+  if out = "alive clean" then "ok"
+  else if out = "CRASH" then "bad:crash:the server process died while or after answering an archive request"
+  else "bad:two-responses:" ++ out
+
 def streams : List Driver.Stream := [
+  { name := "c02.archerr", model := fun _ => "alive clean", judge := archErrJudge },
+  { name := "c02.cond", model := condModel, judge := condJudge },
   { name := "c02.serve", model := serveModel, judge := serveJudge },
   { name := "c02.clean", model := cleanModel, judge := fun _ _ => "ok" },
   { name := "c02.match", model := matchModel, judge := fun _ _ => "ok" },
